@@ -493,6 +493,8 @@ class Runner:
                 ar["ar_done"] = ar["req_done"] = k
                 ar["allowed"], ar["allowed_alt"] = set(), set()
                 self._read_received(ar, k)
+                # a write whose response handshake happens at this very edge is still "in flight" for this read
+                self._note_possible(ar, writes)
                 shake = True
             if bt is not None and I["axi_bready"] and S["axi_bvalid"] == 1:
                 self._write_completed(bt, k)
